@@ -283,16 +283,25 @@ def yaml_comments_dump(data, parser):
     return formatter.add_yaml_comments(dump)
 
 
+def json_default(obj):
+    """Namespaces nested deeper than what as_dict converts are dumped as mappings, same as the yaml dumper does."""
+    from ._namespace import Namespace
+
+    if isinstance(obj, Namespace):
+        return obj.as_dict()
+    raise TypeError(f"Object of type {type(obj).__name__} is not JSON serializable")
+
+
 def json_compact_dump(data):
     import json
 
-    return json.dumps(data, separators=(",", ":"), **dump_json_kwargs)
+    return json.dumps(data, separators=(",", ":"), default=json_default, **dump_json_kwargs)
 
 
 def json_indented_dump(data):
     import json
 
-    return json.dumps(data, indent=2, **dump_json_kwargs) + "\n"
+    return json.dumps(data, indent=2, default=json_default, **dump_json_kwargs) + "\n"
 
 
 def toml_dump(data):
